@@ -79,7 +79,10 @@ def _run(level: str, kind_i: int, required: bool, has_default: bool, present: bo
         schema.sub.enabled = FeatureFlagField(default=(flag == 1))
     enabled = not (flagged and flag == 2)
 
-    @validator(owner)
+    # at the config-type level the validator may be registered on the FIELD that holds the config type
+    via_ct_field = level == "ct" and prior
+
+    @validator(schema._fields["ct"] if via_ct_field else owner)
     def owner_validator(cfg):
         log.append("owner")
         if v_raises:
@@ -117,7 +120,7 @@ def _run(level: str, kind_i: int, required: bool, has_default: bool, present: bo
     if prior and level in ("root",):
         prior_val = {"int": 4, "str": "p", "list": [4], "dict": {"p": 4}}[kind]
         cfg.r = prior_val
-    elif prior:
+    elif prior and level != "ct":
         skip("prior state only modelled for the root level")
     if present:
         effective = _value(kind, valkind)
@@ -212,8 +215,8 @@ def _mk(level: str):
             skip("value unused")
         if level not in ("sub", "deep") and flag:
             skip("flag unused")
-        if level != "root" and prior:
-            skip("prior unused")
+        if level not in ("root", "ct") and prior:
+            skip("prior unused (root: prior state; ct: validator registered through the config-type field)")
         return _run(level, kind_i, required, has_default, present, valkind, prior, v_raises, v_outer_raises, flag, omit)
 
 
@@ -371,4 +374,60 @@ def revalidation_after_edits(case: int, mode: int, fix: bool) -> bool:
     # whatever got into the list satisfies the item rule
     for it in cfg.items:
         hold("returns" if not invalid else "raises", it.name not in (None, ""), "a list item without its required field is in the list")
+    return True
+
+
+# --------------------------------------------------------------------------- a document that switches a feature on
+@obligation(prop="C11", sites=("raises", "returns"), budget={"quick": 120, "thorough": 300},
+            encodes=["cincoconfig.core.Schema._validate", "cincoconfig.core.Config.load_tree"],
+            what="a sub-configuration whose feature flag is OFF before the load holds a list of configurations and a "
+                 "required field; the loaded tree switches the flag on (or leaves it off) and carries list items "
+                 "and values, with the flag key BEFORE or AFTER the other keys (symbolic): the load returns iff the "
+                 "flag ends up off, or every item and field of the now enabled sub-configuration satisfies the rule")
+def flag_switched_by_the_document(flag_first: bool, turn_on: bool, bad_item: int, name_given: bool, was_on: bool) -> bool:
+    """
+    pre: 0 <= bad_item <= 2
+    post: _
+    """
+    item = Schema()
+    item.url = StringField(required=True)
+    item.retries = IntField(default=1)
+
+    @validator(item)
+    def item_validator(cfg):
+        if cfg.retries is not None and cfg.retries > 9:
+            raise ValueError("too many retries")
+    schema = Schema()
+    schema.keep = IntField(default=1)
+    schema.hooks.enabled = FeatureFlagField(default=was_on)
+    schema.hooks.name = StringField(required=True)
+    schema.hooks.endpoints = ListField(item, default=lambda: [])
+    # bad_item: 0 every item fine, 1 an item without its required field, 2 an item failing the item validator
+    items = [{"url": "u"}, {} if bad_item == 1 else ({"url": "u", "retries": 10} if bad_item == 2 else {"url": "v"})]
+    pairs = [("endpoints", items)]
+    if name_given:
+        pairs.append(("name", "n"))
+    flag_pair = ("enabled", turn_on)
+    pairs = [flag_pair] + pairs if flag_first else pairs + [flag_pair]
+    tree = {"hooks": dict(pairs)}
+    cfg = schema()
+    raised = None
+    try:
+        cfg.load_tree(tree)
+    except Exception as exc:  # noqa: BLE001
+        raised = exc
+    on = turn_on
+    # items of configuration lists are held to the rule when they are loaded, whatever the flag says at that moment
+    # may differ between implementations; what the statement fixes: with the feature ON at the end everything counts
+    must_raise = on and (bad_item != 0 or not name_given)
+    if must_raise:
+        hold("raises", isinstance(raised, ValidationError),
+             lambda: "the load returned (%r) with the feature on and an invalid item / unset required field" % (raised,))
+    elif on:
+        hold("returns", raised is None, lambda: "valid document rejected: %r" % (raised,))
+    else:
+        # flag off at the end: the sub-configuration is exempt; a rejection of a bad ITEM while it was loaded is
+        # allowed ("held to the same rule when they are loaded"), anything else must not fail
+        hold("returns", raised is None or (bad_item != 0 and isinstance(raised, ValidationError)),
+             lambda: "document for a disabled feature rejected: %r" % (raised,))
     return True
